@@ -1045,6 +1045,9 @@ def _dv_methods(I, view, name):
     h = ex.heap[view.ref.addr]
     if name == 'clear':
         def f(ex_, a, k):
+            hook = ex_.ghost.get('__dict_clear__')
+            if hook is not None:
+                hook(I, view.ref)
             h.attrs.clear()
             return NONE
     elif name == 'copy':
